@@ -158,7 +158,7 @@ FREQS = [935000, 935200, 890000, 890200, 1805000]
 
 def rand_int_arg(rng, verb):
     if verb in ("RXTUNE", "TXTUNE", "MEASURE"):
-        return rng.choice(FREQS)
+        return rng.choice(FREQS + [0, 0])       # 0 kHz is a value like any other ("tuned to 0" is not "never tuned")
     if verb == "SETFORMAT":
         return rng.choice([-1, 0, 0, 1, 1, 2, 15, 16])
     if verb == "RFMUTE":
@@ -216,9 +216,9 @@ def rand_trx_defs(rng):
     for _ in range(n):
         kind = rng.below(3)
         if kind == 0:       # child of BTS
-            base, idx = 5700, rng.range(1, 3)
+            base, idx = 5700, rng.choice([1, 2, 3, 1, 2, 10, 12, 25])      # two-digit child indices as well ("/12" is child 12)
         elif kind == 1:     # child of MS
-            base, idx = 6700, rng.range(1, 2)
+            base, idx = 6700, rng.choice([1, 2, 1, 11])
         else:               # additional parent
             base, idx = rng.choice([7700, 8700]), 0
         if (base, idx) in used or (idx > 0 and base in (7700, 8700) and (base, 0) not in used):
@@ -328,6 +328,11 @@ def refused_leaves_no_trace(ctx, script, real, keyp):
             try:
                 rsp = bytes(o[3:]).decode("ascii").strip("\0").split(" ")
                 refused = len(rsp) >= 3 and rsp[2].lstrip("-").isdigit() and int(rsp[2]) < 0
+                # SETFORMAT answered with ANOTHER version than the one asked for is a refusal as well (the peer is expected to
+                # ask again with the suggested version): nothing may have been switched
+                if (not refused and len(rsp) >= 4 and rsp[1] == "SETFORMAT" and rsp[2].isdigit() and rsp[3].lstrip("-").isdigit()
+                        and int(rsp[2]) != int(rsp[3])):
+                    refused = True
             except UnicodeDecodeError:
                 refused = False
         elif o[1] in (0, 2):
